@@ -36,12 +36,12 @@ theorem uc_refresh_asleep_flagged (u : Uc) (ha : u.asleep = true) :
 theorem ssd_refresh_snapshot (s : Ssd) (ha : s.asleep = false) (hd : s.uc2.toNat / 4 % 2 = 1) :
     (s.feed (.c 0x20 [])).refreshes =
       { asleep := false, initialised := s.initialised, powered := true } :: s.refreshes := by
-  simp [Ssd.feed, ha, hd]
+  simp [Ssd.feed, Ssd.regStep, ha, hd]
 
 /-- master activation without the display bit is not a refresh -/
 theorem ssd_no_display_no_refresh (s : Ssd) (ha : s.asleep = false) (hd : s.uc2.toNat / 4 % 2 ≠ 1) :
     (s.feed (.c 0x20 [])).refreshes = s.refreshes := by
-  simp [Ssd.feed, ha, hd]
+  simp [Ssd.feed, Ssd.regStep, ha, hd]
 
 /-- the end of an operation that issued a reset and completed counts as its initialisation -/
 theorem opEnd_initialises (s : Ssd) (h : s.resetSeen = true) : (s.opEnd true).initialised = true := by
